@@ -72,6 +72,7 @@ structure SeqVerdict where
   errSteps : Nat := 0
   inplaceOk : Nat := 0
   rel : List (String × String) := []
+  bigOk : Nat := 0     -- successful steps whose target had at least 2 rows and 1 column
 
 def firstFail (cur new : String) : String := if cur == "ok" then new else cur
 
@@ -128,14 +129,70 @@ def relSpec (ω : Oracle) (pre : Pool) (op : Op) (status : String) (post : Pool)
 
 partial def seqSteps (ω : Oracle) (n : Nat) (idx : Nat) (model impl : Pool) (v : SeqVerdict) : P SeqVerdict := do
   if idx ≥ n then return v
-  expect "OP"
+  let kindTok ← next
+  if kindTok == "QY" then
+    -- read-only accessors: Row(i), ColumnNames(), Nrows()/Ncols()  (C08)
+    let q ← next
+    let t ← pNat
+    let f := impl.getD t []
+    let mut good := true
+    if q == "qrow" then
+      let i ← pInt
+      expect "R"
+      let status ← next
+      match Spec.rowSpec f i with
+      | some r =>
+        if status == "ok" then
+          let got ← pRow
+          good := got == (r.foldl (fun acc kv => Row.set acc kv.1 kv.2) [])
+        else good := false
+      | none =>
+        if status == "ok" then
+          let _ ← pRow
+        good := status == "err"
+    else if q == "qnames" then
+      expect "R"
+      let status ← next
+      if status == "ok" then
+        let names ← pList pStr
+        good := names == f.keys
+      else good := false
+    else
+      expect "R"
+      let status ← next
+      if status == "ok" then
+        let nr ← pInt
+        let nc ← pInt
+        good := nc == (f.ncols : Int) && (f == [] || nr == (f.nrows : Int))
+      else good := false
+    let dump ← pDump impl
+    let mut v := v
+    if !good && !(v.rel.any (fun kv => kv.1 == "c08")) then
+      v := { v with rel := ("c08", s!"fail@{idx}:query-{q}") :: v.rel }
+    if dump.any (fun d => !d.same) then
+      v := { v with c02 := firstFail v.c02 s!"fail@{idx}:query-changed-a-frame" }
+    return ← seqSteps ω n (idx + 1) model impl { v with okSteps := v.okSteps + 1 }
+  if kindTok != "OP" then throw s!"expected OP or QY, got {kindTok}"
   let op ← pOp
   expect "R"
   let status ← next
+  -- Filter: the rows handed to the predicate, in call order
+  let mut filterLogBad := false
+  if (← peek?) == some "X" then
+    let _ ← next
+    let log ← pList pRow
+    match op with
+    | .filter t _ =>
+      let f := impl.getD t []
+      let expct := (Spec.filterLogSpec f).map (fun r => r.foldl (fun acc kv => Row.set acc kv.1 kv.2) [])
+      filterLogBad := log != expct
+    | _ => pure ()
   let dump ← pDump impl
   let impl' : Pool := dump.map (·.frame)
   let mut v := v
   let tag := s!"fail@{idx}"
+  if filterLogBad && !(v.rel.any (fun kv => kv.1 == "c08")) then
+    v := { v with rel := ("c08", s!"{tag}:predicate-calls") :: v.rel }
   -- C20: no panic, an error changes nothing
   if status == "panic" || status == "hang" then
     v := { v with c20 := firstFail v.c20 s!"{tag}:{status}" }
@@ -149,7 +206,8 @@ partial def seqSteps (ω : Oracle) (n : Nat) (idx : Nat) (model impl : Pool) (v 
   let tgt := op.target
   let mutIdx (i : Nat) : Bool := op.inPlace && i == tgt
   if status == "ok" then
-    v := { v with okSteps := v.okSteps + 1, inplaceOk := v.inplaceOk + (if op.inPlace then 1 else 0) }
+    v := { v with okSteps := v.okSteps + 1, inplaceOk := v.inplaceOk + (if op.inPlace then 1 else 0),
+                  bigOk := v.bigOk + (if (impl.getD tgt []).nrows ≥ 2 then 1 else 0) }
     let changed := (List.range impl.length).any (fun i =>
       match dump[i]? with
       | some d => !d.same && !mutIdx i
@@ -206,7 +264,7 @@ def checkSeq : P String := do
   expect "STEPS"
   let n ← pNat
   let v ← seqSteps ω n 0 pool pool {}
-  let nontriv := v.okSteps ≥ 3 && v.inplaceOk ≥ 1
+  let nontriv := v.bigOk ≥ 1
   let relS := String.intercalate " " (v.rel.map (fun kv => s!"{kv.1}={kv.2}"))
   pure s!"c01={v.c01} c02={v.c02} c20={v.c20} {relS} corr={v.corr} nontrivial={if nontriv then 1 else 0} ok={v.okSteps} err={v.errSteps}"
 
